@@ -918,10 +918,245 @@ func c18GenBoot(r *hx.Rng, bigN bool) c18Boot {
 	return bc
 }
 
+// ---------------------------------------------------------------- several cells, one AddSummaries call
+
+type c18MCell struct {
+	Bench string    `json:"bench"`
+	Hash  int       `json:"hash"`
+	Nu    []float64 `json:"nu"`
+	De    []float64 `json:"de"`
+}
+
+type c18Multi struct {
+	Conf  float64    `json:"confidence"`
+	N     int        `json:"n"`
+	Cells []c18MCell `json:"cells"`
+	Kind  string     `json:"kind"`
+}
+
+var c18MStamps = []string{"20220102T000000", "2022-01-03T00:00:00Z", "20220104T000000"}
+
+func c18Stream(nu, de []float64, n int) (int64, hx.Sx) {
+	a := append([]float64(nil), nu...)
+	b := append([]float64(nil), de...)
+	sort.Float64s(a)
+	sort.Float64s(b)
+	seed := benchseries.VerifSeed(a, b)
+	rr := rand.New(rand.NewSource(seed))
+	var stream []hx.Sx
+	for i := 0; i < n; i++ {
+		for range a {
+			stream = append(stream, hx.I(rr.Intn(len(a))))
+		}
+		for range b {
+			stream = append(stream, hx.I(rr.Intn(len(b))))
+		}
+	}
+	return seed, hx.List(stream)
+}
+
+// all cells in ONE ComparisonSeries, summarised by ONE AddSummaries call
+func c18MultiRun(m c18Multi) (outs []hx.Sx, kind string) {
+	outs = make([]hx.Sx, len(m.Cells))
+	defer func() {
+		if e := recover(); e != nil {
+			for i := range outs {
+				outs[i] = hx.L(hx.I(2))
+			}
+			kind = "panic"
+		}
+	}()
+	b, err := benchseries.NewBuilder(c18Opts())
+	if err != nil {
+		panic(err)
+	}
+	seenDen := map[string]bool{}
+	for _, c := range m.Cells {
+		mk := func(role string, v float64) {
+			b.Add(c18Result{Bench: c.Bench, Exp: "20220101T000000", Ser: c18MStamps[c.Hash], Role: role, NH: fmt.Sprintf("h%d", c.Hash), DH: "d",
+				Units: []string{"allocs/op"}, Vals: []float64{v}}.result())
+		}
+		for _, v := range c.Nu {
+			mk("num", v)
+		}
+		if !seenDen[c.Bench] { // one baseline per (benchmark, experiment) trial
+			seenDen[c.Bench] = true
+			for _, v := range c.De {
+				mk("den", v)
+			}
+		}
+	}
+	css, err := b.AllComparisonSeries(nil, benchseries.DUPE_REPLACE)
+	if err != nil || len(css) != 1 {
+		panic("unexpected")
+	}
+	cs := css[0]
+	cs.AddSummaries(m.Conf, m.N)
+	for i, c := range m.Cells {
+		ser, _ := benchseries.NormalizeDateString(c18MStamps[c.Hash])
+		si, bi := -1, -1
+		for k, s := range cs.Series {
+			if s == ser {
+				si = k
+			}
+		}
+		for k, bn := range cs.Benchmarks {
+			if bn == c.Bench {
+				bi = k
+			}
+		}
+		if si < 0 || bi < 0 || !cs.Summaries[si][bi].Defined() {
+			outs[i] = hx.L(hx.I(1))
+			continue
+		}
+		sm := cs.Summaries[si][bi]
+		outs[i] = hx.L(hx.I(0), hx.F64(sm.Center), hx.F64(sm.Low), hx.F64(sm.High))
+	}
+	return outs, "ok"
+}
+
+func c18MultiCase(o *hx.Out, m c18Multi) {
+	outs, kind := c18MultiRun(m)
+	var cells []hx.Sx
+	tagged := false
+	for i, c := range m.Cells {
+		seed, stream := c18Stream(c.Nu, c.De, m.N)
+		alone, _ := c18PublicSummary(c18Boot{Nu: c.Nu, De: c.De, Conf: m.Conf, N: m.N})
+		// known-finding characterisation, as for single cells
+		func() {
+			defer func() { recover() }()
+			a := append([]float64(nil), c.Nu...)
+			d := append([]float64(nil), c.De...)
+			sort.Float64s(a)
+			sort.Float64s(d)
+			_, _, _, ratios := benchseries.VerifRatio(a, d, m.Conf, m.N)
+			p := (1 - m.Conf) / 2
+			for _, q := range []float64{p, 1 - p} {
+				f := float64(len(ratios)) * q
+				k := int(f)
+				if k >= 0 && k+1 < len(ratios) && f-float64(k) > 0 && q != 0 && q != 1 && c18Ulps(ratios[k], ratios[k+1]) <= 4 {
+					tagged = true
+				}
+			}
+		}()
+		cells = append(cells, hx.L(c18F64s(c.Nu), c18F64s(c.De), hx.Z(seed), stream, outs[i], alone))
+	}
+	var tags []string
+	if tagged {
+		tags = append(tags, "c18_percentile_between_equal_ratios")
+	}
+	o.Count("multi-kind:" + m.Kind)
+	o.Count("multi-outcome:" + kind)
+	o.Count(fmt.Sprintf("multi-cells:%d", len(m.Cells)))
+	o.Add(hx.L(hx.I(3), hx.F64(m.Conf), hx.I(m.N), hx.List(cells)),
+		map[string]interface{}{"kind": "multi-cell-bootstrap", "case": m}, fmt.Sprintf("m:%d", o.Len()), len(m.Cells) > 1, tags...)
+}
+
+func c18GenMulti(r *hx.Rng) c18Multi {
+	var m c18Multi
+	m.N = []int{1, 2, 3, 7, 20, 50}[r.Intn(6)]
+	m.Conf = []float64{0.5, 0.9, 0.95, 0.99, r.Float()}[r.Intn(5)]
+	vec := func() []float64 {
+		n := 1 + r.Intn(5)
+		v := make([]float64, n)
+		switch r.Intn(3) {
+		case 0: // exact metric: small integers
+			base := float64(1 + r.Intn(40))
+			for i := range v {
+				v[i] = base + float64(r.Intn(2))
+			}
+		case 1:
+			x := c18Val(r)
+			for i := range v {
+				v[i] = x
+			}
+		default:
+			for i := range v {
+				v[i] = c18Val(r)
+			}
+		}
+		return v
+	}
+	X, Y, Z := vec(), vec(), vec()
+	type pat struct {
+		nu, de []float64
+		name   string
+	}
+	pats := []pat{{X, Y, "XY"}, {Y, X, "YX"}, {X, Y, "XY"}, {X, Z, "XZ"}, {Z, Y, "ZY"}, {X, X, "XX"}, {Z, X, "ZX"}}
+	nb := 2 + r.Intn(4)
+	names := []string{"B0", "B1", "B2", "B3", "B4", "B5"}
+	// random assignment of benchmark names so that the order of evaluation varies
+	for i := len(names) - 1; i > 0; i-- {
+		j := r.Intn(i + 1)
+		names[i], names[j] = names[j], names[i]
+	}
+	kind := ""
+	for b := 0; b < nb; b++ {
+		p := pats[b%2] // the first two cells are always a swapped pair
+		if b >= 2 {
+			p = pats[r.Intn(len(pats))]
+		}
+		kind += p.name + " "
+		m.Cells = append(m.Cells, c18MCell{Bench: names[b], Hash: 0, Nu: p.nu, De: p.de})
+		if r.Chance(0.4) { // a second series point of the same trial: shares the baseline
+			nu2 := [][]float64{X, Y, Z, p.de}[r.Intn(4)]
+			m.Cells = append(m.Cells, c18MCell{Bench: names[b], Hash: 1 + r.Intn(2), Nu: nu2, De: p.de})
+		}
+	}
+	m.Kind = "swapped-pair+" + fmt.Sprint(len(m.Cells)-2)
+	_ = kind
+	return m
+}
+
+// DUPE_COMBINE aliasing class: one trial with several numerator hashes sharing
+// ONE baseline; each of those series points is measured again by a different
+// later experiment with its own (short) baseline
+func c18GenSharedBaseline(r *hx.Rng) c18World {
+	var w c18World
+	w.Mut = "shared-baseline"
+	nh := 2 + r.Intn(2)
+	t0 := time.Date(2022, 1, 1, 21, 32, 12, 0, time.UTC)
+	sers := make([]string, nh)
+	for i := range sers {
+		sers[i] = c18Stamp(r, t0.AddDate(0, 0, i), r.Intn(4))
+	}
+	table := []string{"", "linux"}[r.Intn(2)]
+	units := c18UnitSets[r.Intn(len(c18UnitSets))]
+	nb := 1 + r.Intn(2)
+	for bi := 0; bi < nb; bi++ {
+		mk := func(exp time.Time, style int, role string, h int, n int) {
+			for k := 0; k < n; k++ {
+				vals := make([]float64, len(units))
+				for i := range vals {
+					vals[i] = c18Val(r)
+				}
+				w.Results = append(w.Results, c18Result{Table: table, Bench: c18Benches[bi], Exp: c18Stamp(r, exp, style), Ser: sers[h],
+					Role: role, NH: fmt.Sprintf("h%d", h), DH: "d0", Units: units, Vals: vals})
+			}
+		}
+		st := r.Intn(4)
+		// experiment 0: all hashes, one baseline whose slice has spare capacity (3, 5, 6 or 7 values)
+		mk(t0.AddDate(0, 1, 0), st, "den", 0, []int{3, 5, 6, 7}[r.Intn(4)])
+		for h := 0; h < nh; h++ {
+			mk(t0.AddDate(0, 1, 0), st, "num", h, 1+r.Intn(3))
+		}
+		// later experiments: one per hash, each with a short baseline of its own
+		for h := 0; h < nh; h++ {
+			if r.Chance(0.9) {
+				e := t0.AddDate(0, 1, 1+h)
+				st2 := r.Intn(4)
+				mk(e, st2, "den", h, 1+r.Intn(2))
+				mk(e, st2, "num", h, 1+r.Intn(2))
+			}
+		}
+	}
+	return w
+}
+
 // ---------------------------------------------------------------- entry
 
 func genC18(o *hx.Out, r *hx.Rng, tier string, replay string) error {
-	o.Rule = "three streams. dates: pairs of timestamp texts in both accepted layouts (offsets, fractions incl. >9 digits and ',' separator, calendar edge days, years 0..9999), pairs denoting one instant, neighbouring instants, hostile mutations. bootstrap: samples (constant, near-constant, few-valued, positive, mixed-sign, zero denominators) x N in {1,2,3,50,500,1000,small random} x confidence in {0.5,0.9,0.95,0.99,edge,random}, through Builder.Add/AllComparisonSeries/AddSummaries and the tagged hooks, math/rand Intn stream recorded for replay. series: result sets over <=2 units x <=2 tables x <=3 benchmarks x <=4 experiments x <=4 hashes/series stamps (stamps in mixed layouts), well-formed worlds plus mutations a-g leaving the well-formed domain, each added in N random orders under DUPE_REPLACE and DUPE_COMBINE. non-trivial = more than 3 measurements / a date accepted / a sample of more than one value"
+	o.Rule = "five streams. multi-cell: a ComparisonSeries with 2-9 cells (always one pair with swapped numerator/denominator samples, identical cells, cells sharing only one sample, two series points sharing one baseline) summarised by ONE AddSummaries call, each cell compared with the same samples summarised alone. shared-baseline: DUPE_COMBINE aliasing class (one trial, several hashes, one baseline, each point re-measured by a later experiment). dates: pairs of timestamp texts in both accepted layouts (offsets, fractions incl. >9 digits and ',' separator, calendar edge days, years 0..9999), pairs denoting one instant, neighbouring instants, hostile mutations. bootstrap: samples (constant, near-constant, few-valued, positive, mixed-sign, zero denominators) x N in {1,2,3,50,500,1000,small random} x confidence in {0.5,0.9,0.95,0.99,edge,random}, through Builder.Add/AllComparisonSeries/AddSummaries and the tagged hooks, math/rand Intn stream recorded for replay. series: result sets over <=2 units x <=2 tables x <=3 benchmarks x <=4 experiments x <=4 hashes/series stamps (stamps in mixed layouts), well-formed worlds plus mutations a-g leaving the well-formed domain, each added in N random orders under DUPE_REPLACE and DUPE_COMBINE. non-trivial = more than 3 measurements / a date accepted / a sample of more than one value"
 	// the code under test reports hash-pair mismatches on os.Stderr directly
 	if devnull, err := os.OpenFile(os.DevNull, os.O_WRONLY, 0); err == nil {
 		saved := os.Stderr
@@ -929,8 +1164,10 @@ func genC18(o *hx.Out, r *hx.Rng, tier string, replay string) error {
 		defer func() { os.Stderr = saved; devnull.Close() }()
 	}
 	nd, nb, nbig, nsr, norders := 1500, 400, 12, 90, 20
+	nmulti, nshared := 150, 25
 	if tier == "thorough" {
 		nd, nb, nbig, nsr, norders = 40000, 6000, 150, 1500, 20
+		nmulti, nshared = 3000, 400
 	}
 	c18GenDates(o, r.Split(), nd)
 	rb := r.Split()
@@ -944,9 +1181,16 @@ func genC18(o *hx.Out, r *hx.Rng, tier string, replay string) error {
 	c18BootCase(o, c18Boot{Nu: []float64{1, 2, 3}, De: []float64{3, 4, 5}, Conf: 0.001, N: 2, Kind: "witness-low-above-centre"})
 	c18BootCase(o, c18Boot{Nu: []float64{1, 2, 3}, De: []float64{3, 4, 5}, Conf: 0.2, N: 3, Kind: "witness-low-above-centre"})
 	c18BootCase(o, c18Boot{Nu: []float64{1, 1, 1}, De: []float64{3, 3, 3}, Conf: 0.95, N: 250, Kind: "witness-constant"})
+	rm := r.Split()
+	for i := 0; i < nmulti; i++ {
+		c18MultiCase(o, c18GenMulti(rm))
+	}
 	rs := r.Split()
 	for i := 0; i < nsr; i++ {
 		c18SeriesCase(o, rs, c18GenWorld(rs), norders)
+	}
+	for i := 0; i < nshared; i++ {
+		c18SeriesCase(o, rs, c18GenSharedBaseline(rs), norders)
 	}
 	// combine with a denominator-less trial (nil dereference before the repair)
 	c18SeriesCase(o, rs, c18World{Results: []c18Result{
